@@ -1,6 +1,6 @@
 (* Properties/C09.v — Merging files keeps each file's content and yields their union in any load order
    (and the load half of C11: a rejected load has no effect).
-   Only statements; every proof is `exact <lemma>` (lemmas: Tree/LoadProofs.v, Tree/LoadProofsRefuted.v).
+   Only statements; every proof is `exact <lemma>` (lemmas: Tree/LoadProofs.v, Tree/LoadProofsWalk.v, Tree/LoadProofsRefuted.v).
 
    Model      : Tree/Load.v — load_buffer_internal, merge_file_data, merge_element (the positional two-pointer walk
                 `walk` with `merge_action`, calc_identifiables_merge, calc_element_merge, find_merge_partner),
@@ -19,7 +19,7 @@
    parent are merged by position (known finding C09-unnamed-below-splittable, outside the class of the theorems:
    they have no key). *)
 From AV Require Import Base.Bytes Base.Outcome Hash.HashModel Tree.Heap Tree.Ops Tree.Script Tree.Load Tree.Observe
-  Tree.MergeSpec Tree.LoadProofs Tree.LoadProofsRefuted.
+  Tree.MergeSpec Tree.LoadProofs Tree.LoadProofsWalk Tree.LoadProofsRefuted.
 From AV Require Xml.Lexer Xml.Parser.
 Open Scope N_scope.
 
@@ -51,6 +51,40 @@ Theorem C11_load_merge_conflict_refuted :
   exists (w : world) (e : Parser.etree) (w' : world) (i : id),
     TinyM.load_tree "b" e w = Val (ER InvalidFileMerge, w') /\ i < w_next w /\ w_nodes w' i <> w_nodes w i.
 Proof. exact load_merge_conflict_changes_state. Qed.
+
+(* ---- the two-pointer walk of merge_element [U]: for EVERY order of the two child lists (keys unique per list, whether
+        an element is identifiable depends on its kind only, node ids distinct), the walk merges every element of the
+        model with its partner in the new file (same kind and item name, else same DEFINITION-REF), keeps the others as
+        a-only, and reports the elements of the new file without partner as b-only, each exactly once; it cannot fail
+        when the parent is splittable or every identifiable element has its partner. *)
+Theorem C09_walk_partition :
+  forall (la0 lb0 : list pk) (sp : bool) (cnt : N),
+    Keyed la0 lb0 -> NoConflict la0 lb0 sp ->
+    exists wk,
+      walk (S (List.length la0 + List.length lb0)) (map inj la0) (map inj lb0) sp cnt 0 (map inj la0) (map inj lb0)
+           (mkWalked [] [] []) = Val (OK wk) /\
+      wk_merge wk = merges_of la0 lb0 /\ wk_a_only wk = a_only_of la0 lb0 /\
+      map fst (wk_b_only wk) = b_only_of la0 lb0.
+Proof. exact walk_partition. Qed.
+
+(* ---- conflicting files are rejected [U]: below a parent that is not splittable (in the version the merge works with),
+        two lists of identifiable elements of one kind that diverge in both directions make merge_element return
+        InvalidFileMerge, and nothing is modified at this level. *)
+Theorem C09_conflict_rejected :
+  forall (T : tables) (LATEST name_definition_ref : N) (f : nat) (w : world) (pa pb : id) (files : list N) (nf : N)
+         (na nb : node) (la0 lb0 : list pk) (name : N),
+    w_nodes w pa = Some na -> w_nodes w pb = Some nb ->
+    keys_of T name_definition_ref w (n_type na) (n_content na) = Val (map inj la0) ->
+    keys_of T name_definition_ref w (n_type na) (n_content nb) = Val (map inj lb0) ->
+    splittable_in T (n_type na)
+      (N.min (files_min_version LATEST w files)
+             (match nth_opt (w_files w) (N.to_nat nf) with Some x => f_version x | None => LATEST end)) = Val false ->
+    Keyed la0 lb0 ->
+    (forall x, In x (la0 ++ lb0) -> pk_name x = name /\ pk_ident x = true) ->
+    (exists a, In a la0 /\ has_partner lb0 a = false) ->
+    (exists b, In b lb0 /\ has_partner la0 b = false) ->
+    merge_element T LATEST name_definition_ref (S f) pa files pb nf w = Val (ER InvalidFileMerge, w).
+Proof. exact merge_element_conflict. Qed.
 
 (* ---- non-vacuity: the two partial views of a master over the tiny table set merge to the master *)
 Theorem C09_example_merge_01 :
